@@ -517,3 +517,12 @@ V("C13-t1", "C13", (FRAME, "            assign_if_none(self.index_min, index_dat
   "silent", "temporaries, order of independent statements")
 V("C13-t2", "C13", (FRAME, "            assign_if_none(self.index_max, index_data.shape[0])", "            assign_if_none(self.index_max, len(index_data))"),
   "silent", "len() of the windowed data")
+
+
+# ---------------------------------------------------------------------------------------------- C14 R14.6 (provenance)
+V("C14-b11", "C14", (EITEM, "        self._copy_number = self._compute_copy_number()", "        self._copy_number = self._compute_copy_number() + id(self) % 1"),
+  "R14.6", "id() flows into the copy number")
+V("C14-b12", "C14", (SW, "    return RepresentationCode.ULONG.convert(value + ULONG_OFFSET)", "    import time\n    return RepresentationCode.ULONG.convert(value + ULONG_OFFSET + int(time.time()) * 0)"),
+  "R14.6", "time.time() on the byte path")
+V("C14-b13", "C14", (ORIGIN, "            self.creation_time.value = datetime.now()", "            self.creation_time.value = datetime.now()\n            self.program.value = f'dliswriter at {datetime.now()}'"),
+  "R14.6", "now() stored into another attribute")
